@@ -554,6 +554,43 @@ def fileOf (blocks : List (String × List (List Char))) : List LineClass :=
 
 end Wntr.InpRead
 
+/-! ## `InpTimes` — the [TIMES] grammar of `_read_times` / `_write_times` -/
+namespace Wntr.InpTimes
+open Wntr.InpText
+
+/-- the value forms `_read_times` accepts: `int(float(x) * 3600) if _is_number(x) else _str_time_to_sec(x)`.
+A units word after the value (`HOURS`, `MIN`, `SEC`, `DAY`) is NOT read: `HYDRAULIC TIMESTEP 30 MIN` is taken as 30 hours
+(mirrors the code; WNTR's writer never writes units) -/
+inductive TimeVal where
+  | hms (h m s : Int)
+  | hm (h m : Int)
+  | dec (x : Rat)      -- decimal hours, also a bare integer
+  deriving Repr, DecidableEq
+
+def parseTimeVal : TimeVal → Int
+  | .hms h m s => h * 3600 + m * 60 + s
+  | .hm h m => h * 3600 + m * 60
+  | .dec x => (x * 3600).floor
+
+/-- `_write_times`: every duration / timestep / start as `hh:mm:ss` (`_sec_to_string`) -/
+def writeTimeVal (sec : Int) : TimeVal := .hms (hmsOf sec).1 (hmsOf sec).2.1 (hmsOf sec).2.2
+
+/-- the attribute of `options.time` a [TIMES] line sets: DURATION, HYDRAULIC …, QUALITY …, … CLOCKTIME, STATISTIC are
+special-cased; every other line sets `<word0>_<word1>` lower-cased (RULE TIMESTEP, PATTERN TIMESTEP / START, REPORT …) -/
+def timesField (w0 w1 : String) : String :=
+  if w0.toUpper == "DURATION" then "duration"
+  else if w0.toUpper == "HYDRAULIC" then "hydraulic_timestep"
+  else if w0.toUpper == "QUALITY" then "quality_timestep"
+  else if w1.toUpper == "CLOCKTIME" then "start_clocktime"
+  else if w0.toUpper == "STATISTIC" then "statistic"
+  else w0.toLower ++ "_" ++ w1.toLower
+
+/-- `_write_times`, START CLOCKTIME: hours below 12 with AM, else hours - 12 with PM (two digits each) -/
+def startHour (sec : Int) : Int := if sec / 3600 < 12 then sec / 3600 else sec / 3600 - 12
+def startPm (sec : Int) : Bool := decide (12 ≤ sec / 3600)
+
+end Wntr.InpTimes
+
 /-! ## `InpNorm` — the normalisation under which the oracle compares a model with its re-read copy
 (`harness/props/c12.py: normalise`): what an INP file cannot distinguish -/
 namespace Wntr.InpNorm
